@@ -23,6 +23,7 @@ zl      `-` | <zone>.<handler>:<flow>,…   for every in-memory handler: what it
 import HickoryVerif.Drv.Proto
 import HickoryVerif.Model.ServerGate
 import HickoryVerif.Model.ServerRequest
+import HickoryVerif.Model.SendQueue
 
 namespace HickoryVerif.Drv.C11
 open HickoryVerif HickoryVerif.Drv HickoryVerif.ServerGate
@@ -148,6 +149,42 @@ def substZl (cat : Catalog) (zl : List ((Nat × Nat) × Flow)) : Catalog :=
         | some f => { hd with search := f }
         | none => hd }
 
+/-! `udp <recv> <send>`: datagrams through the real `UdpStream` on a scripted socket.
+recv  items joined by `,`: `d/<src>/<port>/<hex>` a datagram, `p` a pause (`Pending` + wake),
+      `x` a receive error
+send  results of successive `poll_send_to` calls: `o` ok, `e` error, `E` error that repeats for the
+      same message (EMSGSIZE-like), `w` `Pending` (+ wake); `-` = none; exhausted = ok
+answer: per datagram `a` (its response was handed to the socket), `f` (its send failed: dropped),
+`-` (no response is owed) -/
+
+def parseSendScript (s : String) : Option (List SendQueue.SendRes) :=
+  if s == "-" then some [] else
+  s.toList.mapM fun c =>
+    match c with
+    | 'o' => some .ok
+    | 'e' => some .err
+    | 'E' => some .err
+    | 'w' => some .pending
+    | _ => none
+
+def parseDgram (s : String) : Option (Option (Ip × Bytes)) :=
+  match s.splitOn "/" with
+  | ["d", src, _port, h] => do pure (some (← parseIp src, ← parseHex h))
+  | ["p"] => some none
+  | ["x"] => some none
+  | _ => none
+
+def udpAnswer (cfg : Config) (recv : List (Option (Ip × Bytes))) (script : List SendQueue.SendRes) :
+    String :=
+  let dgrams := recv.filterMap id
+  -- a response is owed unless the gate drops the message
+  let owed := dgrams.map fun (ip, buf) => (match serve cfg ip buf with | .drop => false | _ => true)
+  let idx := (List.range dgrams.length).filter fun i => owed.getD i false
+  let fin := SendQueue.pollAll (script.length + idx.length + 1) script ⟨idx, [], []⟩
+  ",".intercalate ((List.range dgrams.length).map fun i =>
+    if fin.sent.contains i then "a" else if fin.dropped.contains i then "f"
+    else if fin.queue.contains i then "q" else "-")
+
 def step (s : State) (toks : List String) : State × String :=
   match toks with
   | ["begin", zones, deny, allow] =>
@@ -160,6 +197,10 @@ def step (s : State) (toks : List String) : State × String :=
     | some cfg, some ip, some buf, some zl =>
       (s, showGate buf (serve { cfg with catalog := substZl cfg.catalog zl } ip buf))
     | _, _, _, _ => (s, "bad-op")
+  | ["udp", recv, send] =>
+    match s, (recv.splitOn ",").mapM parseDgram, parseSendScript send with
+    | some cfg, some r, some sc => (s, "udp " ++ udpAnswer cfg r sc)
+    | _, _, _ => (s, "bad-op")
   | _ => (s, "bad-op")
 
 end HickoryVerif.Drv.C11
